@@ -231,7 +231,7 @@ func runC12(r *Run) {
 	}
 	n := 1200
 	if r.Tier == "thorough" {
-		n = 100000
+		n = 25000
 	}
 	frags := []string{"x", "s", "xs", "m", "1", "2.5", "\"a\"", "true", "+", "-", "*", "/", "%", "^", "<", "==", "&&", "||", "!", "?", ":", ".", ",", "(", ")", "[", "]", "{", "}", " ", "len", "get", "if", "string", "match", "'", "`", "\"", "\\", "é", "\n", "0x", "1e", "@", "#"}
 	for i := 0; i < n; i++ {
